@@ -223,4 +223,43 @@ theorem C06_frame_run (fuel : Nat) (inp₁ inp₂ : Input) (pre post : Bst.Progr
       simp only [h3, h4]
     rfl
 
+
+/-- The view of a key is determined by its cross-reference closure (with C14): if the two
+databases have the same entries on a set `C` of keys that is closed under following `crossref`
+fields, they agree — in the sense the frame theorem needs — on every key of `C` that has an
+entry.  Entries outside `C` (uncited, unreferenced) and the order of the entries are irrelevant. -/
+theorem C06_frame_closure (C : Str → Prop) (db₁ db₂ : BibData) (K : List Str)
+    (hget : ∀ k, C k → db₁.entries.getItem k = db₂.entries.getItem k)
+    (hcl : ∀ k e x, C k → db₁.entries.getItem k = some e → e.fields.getItem xrefName = some x → C x)
+    (hK : ∀ k ∈ K, C k ∧ (db₁.entries.getItem k).isSome = true) :
+    Agree K db₁ db₂ :=
+  agree_of_closed ⟨hget, hcl⟩ K hK
+
+/-- The `READ` hypothesis of `C06_frame_run`, reduced to the two readers' results.  With
+`P₁ P₂` the parser states after reading (`readParsed`: the `.bib` texts, or the entries of
+another reader) and `dbᵢ = convertDb Pᵢ.db`: if preamble and reader reports coincide, citation
+resolution (C05: `addExtraCitations`, `removeMissing`) gives the same keys and reports on both
+databases, and the databases agree on the resolved citations, then the two `READ` steps leave
+states that differ in the database only.  (That resolution coincides when the files differ in
+uncited, unreferenced entries or in order is C05's filtered-reading theorem with its ordering
+proviso; `C06_frame_uncited_alt` proves the insertion case for a reader's entry list.) -/
+theorem C06_frame_read (fuel : Nat) (inp₁ inp₂ : Input) (rd : Bst.Command) (s : St)
+    (hrd : upper rd.name = "READ".toList)
+    (hpre : (readParsed inp₂ s).db.preamble.flatten = (readParsed inp₁ s).db.preamble.flatten)
+    (herr : (readParsed inp₂ s).errs.map Report.bib = (readParsed inp₁ s).errs.map Report.bib)
+    (hx : (convertDb (readParsed inp₂ s).db).addExtraCitations s.citations inp₂.minCrossrefs =
+      (convertDb (readParsed inp₁ s).db).addExtraCitations s.citations inp₁.minCrossrefs)
+    (hm : (convertDb (readParsed inp₂ s).db).removeMissing
+        ((convertDb (readParsed inp₁ s).db).addExtraCitations s.citations inp₁.minCrossrefs).1 =
+      (convertDb (readParsed inp₁ s).db).removeMissing
+        ((convertDb (readParsed inp₁ s).db).addExtraCitations s.citations inp₁.minCrossrefs).1)
+    (hA : Agree ((convertDb (readParsed inp₁ s).db).removeMissing
+        ((convertDb (readParsed inp₁ s).db).addExtraCitations s.citations inp₁.minCrossrefs).1).1
+      (convertDb (readParsed inp₁ s).db) (convertDb (readParsed inp₂ s).db)) :
+    ∃ s₁ db₁ db₂, runCommand fuel inp₁ rd s = .ok s₁ ∧ s₁.db = some db₁ ∧
+      runCommand fuel inp₂ rd s = .ok (setDb db₂ s₁) ∧ Agree s₁.citations db₁ db₂ := by
+  refine ⟨readFinish inp₁ s (readParsed inp₁ s), convertDb (readParsed inp₁ s).db,
+    convertDb (readParsed inp₂ s).db, runCommand_read fuel inp₁ rd s hrd, rfl, ?_, hA⟩
+  rw [runCommand_read fuel inp₂ rd s hrd, readFinish_setDb inp₁ inp₂ s _ _ hpre herr hx hm]
+
 end Pybtex.Props
